@@ -211,6 +211,7 @@ def check_cases(ctx, cases):
             ctx.count("epoch_side=" + ("before" if case["dt"]["u"] < 0 else "after"))
             m = build_rem(case)
             man = git_objects.raw_extrinsic_metadata_git_object(m)
+            gitfmt.dict_form_agrees(ctx, case, git_objects.raw_extrinsic_metadata_git_object, m, man)
             impls.append((man, m.id))
             req = {"op": "rem_manifest", "target": hx(swhid_text(case["kind"], case["target"]).encode()),
                    "u": case["dt"]["u"], "off": case["dt"]["off"], "atype": hx(case["atype"].encode()),
